@@ -244,3 +244,48 @@ def run_class_mutable(repo, res, modules):
                                 f'instances share it, so results depend on what other objects did before', {}))
     res.inst('CLASS-MUTABLE', 0)
     return n
+
+
+import re as _re
+_NONFINITE_MSG = _re.compile(r'non-finite|NaNs? or infs?|invalid values \(NaN', _re.I)
+
+
+def run_nonfinite(repo, res, modules=None):
+    """A function that tells the user it handled/rejects *non-finite* values (NaN or inf) must detect them with
+    an isfinite-based test (directly or in the function that hands it the mask); an isnan-only test lets +-inf through."""
+    n = 0
+    for f in repo.functions.values():
+        if modules is not None and f.module.name not in modules:
+            continue
+        if f.outer is not None:
+            continue
+        msgs = [c for c in ast.walk(f.node) if isinstance(c, ast.Constant) and isinstance(c.value, str)
+                and _NONFINITE_MSG.search(c.value) and not _is_doc(c)]
+        if not msgs:
+            continue
+        src = ast.unparse(f.node)
+        has_finite = 'isfinite(' in src or 'masked_invalid(' in src
+        if not has_finite:
+            # the mask may be handed in by the caller (Background2D._combine_all_masks(mask = ~isfinite(...)))
+            callers_ok = False
+            for g in repo.functions.values():
+                if g is f or g.module is not f.module:
+                    continue
+                gs = ast.unparse(g.node)
+                if f'{f.name}(' in gs and ('isfinite(' in gs):
+                    callers_ok = True
+            has_finite = callers_ok
+        n += 1
+        res.oblige('NONFINITE', f'{f.qualname}: the non-finite handling it announces is based on isfinite()', has_finite, nontrivial=True,
+                   sample={'function': f.fullname, 'message': msgs[0].value[:60]})
+        if not has_finite:
+            res.add(Finding('NONFINITE', f.fullname, 'non-finite detection', f.loc,
+                            f'{f.qualname} tells the user that non-finite values (NaN or inf) are masked/rejected but contains no '
+                            f'isfinite()-based test: +-inf pixels are not caught by an isnan test and enter the computation', {}))
+    return n
+
+
+def _is_doc(const):
+    p = getattr(const, '_parent', None)
+    pp = getattr(p, '_parent', None)
+    return isinstance(p, ast.Expr) and isinstance(pp, (ast.FunctionDef, ast.ClassDef, ast.Module, ast.AsyncFunctionDef))
